@@ -131,9 +131,68 @@ type gateAtoms struct {
 	lockedCalls, isMutCalls, versionedCalls              []*ssa.Call
 }
 
-func collectGateAtoms(f *ssa.Function) *gateAtoms {
+// gateHelpers: the bool-returning functions of the dispatcher's package that it calls (the gate, or part of it, moved
+// into lockedNodeRequestAllowed(c, w, r, data, uuid) bool): their atoms count, and the dispatcher's SCCP evaluates
+// their result under the same assignment.
+func gateHelpers(disp *ssa.Function) []*ssa.Function {
+	var out []*ssa.Function
+	seen := map[*ssa.Function]bool{}
+	for _, c := range calls(disp) {
+		h := c.Common().StaticCallee()
+		if h == nil || seen[h] || len(h.Blocks) == 0 || h.Pkg == nil || h.Pkg != disp.Pkg || h.Parent() != nil {
+			continue
+		}
+		res := h.Signature.Results()
+		if res.Len() != 1 {
+			continue
+		}
+		if bt, ok := res.At(0).Type().(*types.Basic); !ok || bt.Kind() != types.Bool {
+			continue
+		}
+		seen[h] = true
+		out = append(out, h)
+	}
+	return out
+}
+
+// gateArg: a helper's parameter seen from the dispatcher (the argument of the helper's one call).
+func gateArg(v ssa.Value, disp *ssa.Function) ssa.Value {
+	v = stripConv(v)
+	prm, ok := v.(*ssa.Parameter)
+	if !ok || prm.Parent() == disp {
+		return v
+	}
+	h := prm.Parent()
+	idx := -1
+	for i, q := range h.Params {
+		if q == prm {
+			idx = i
+		}
+	}
+	var arg ssa.Value
+	n := 0
+	for _, c := range calls(disp) {
+		if c.Common().StaticCallee() == h && idx >= 0 && idx < len(c.Common().Args) {
+			arg = c.Common().Args[idx]
+			n++
+		}
+	}
+	if n == 1 {
+		return stripConv(arg)
+	}
+	return v
+}
+
+func collectGateAtoms(fs ...*ssa.Function) *gateAtoms {
 	g := &gateAtoms{admin: map[ssa.Value]bool{}, fullwrite: map[ssa.Value]bool{}, readonly: map[ssa.Value]bool{},
 		locked: map[ssa.Value]bool{}, isMut: map[ssa.Value]bool{}, versioned: map[ssa.Value]bool{}}
+	for _, f := range fs {
+		collectGateAtomsIn(g, f)
+	}
+	return g
+}
+
+func collectGateAtomsIn(g *gateAtoms, f *ssa.Function) {
 	for _, b := range f.Blocks {
 		for _, in := range b.Instrs {
 			v, ok := in.(ssa.Value)
@@ -175,7 +234,6 @@ func collectGateAtoms(f *ssa.Function) *gateAtoms {
 			}
 		}
 	}
-	return g
 }
 
 func (g *gateAtoms) atomFn(assign map[string]bool, method string) func(v ssa.Value) (AVal, bool) {
@@ -226,7 +284,12 @@ func ruleR2_1(r *Run) {
 		return
 	}
 	pos := w.pos(serve.Pos())
-	g := collectGateAtoms(disp)
+	helpers := gateHelpers(disp)
+	g := collectGateAtoms(append([]*ssa.Function{disp}, helpers...)...)
+	isHelper := map[*ssa.Function]bool{}
+	for _, h := range helpers {
+		isHelper[h] = true
+	}
 	need := map[string]int{"adminPriv": len(g.admin), "fullwrite": len(g.fullwrite), "LockedUUID": len(g.locked), "IsMutationRequest": len(g.isMut), "Versioned": len(g.versioned)}
 	for _, n := range []string{"adminPriv", "fullwrite", "LockedUUID", "IsMutationRequest", "Versioned"} {
 		r.check(need[n] > 0, "dispatcher:atom:"+n, "gate operand present in "+fname(disp),
@@ -243,9 +306,44 @@ func ruleR2_1(r *Run) {
 		for i, n := range names {
 			a[n] = bits&(1<<i) != 0
 		}
-		s := runSCCP(disp, &AEnv{Atom: g.atomFn(a, "")})
-		served := s.Feasible[serve.Block()]
 		refusal := false
+		atom := g.atomFn(a, "")
+		s := runSCCP(disp, &AEnv{Atom: atom, CallEval: func(c *ssa.Call, args []AVal) (AVal, bool) {
+			h := c.Call.StaticCallee()
+			if h == nil || !isHelper[h] {
+				return unknown, false
+			}
+			hs := runSCCP(h, &AEnv{Atom: atom})
+			hs.eachFeasible(func(in ssa.Instruction) {
+				if rc, ok := in.(ssa.CallInstruction); ok && isRefusalCall(rc) {
+					refusal = true
+				}
+			})
+			var res *bool
+			for _, hb := range h.Blocks {
+				if !hs.Feasible[hb] {
+					continue
+				}
+				ret, ok := hb.Instrs[len(hb.Instrs)-1].(*ssa.Return)
+				if !ok || len(ret.Results) != 1 {
+					continue
+				}
+				v := hs.Eval(ret.Results[0])
+				if v.K != ABool {
+					return unknown, false
+				}
+				if res != nil && *res != v.B {
+					return unknown, false
+				}
+				b := v.B
+				res = &b
+			}
+			if res == nil {
+				return unknown, false
+			}
+			return aBool(*res), true
+		}})
+		served := s.Feasible[serve.Block()]
 		s.eachFeasible(func(in ssa.Instruction) {
 			if c, ok := in.(ssa.CallInstruction); ok && isRefusalCall(c) {
 				refusal = true
@@ -274,12 +372,12 @@ func ruleR2_1(r *Run) {
 	uuidArg := stripConv(serve.Call.Args[0])
 	recv := serve.Call.Value
 	for _, lc := range g.lockedCalls {
-		r.check(sameValue(stripConv(lc.Call.Args[0]), uuidArg), "dispatcher:locked-of-request-uuid",
+		r.check(sameValue(gateArg(lc.Call.Args[0], disp), uuidArg), "dispatcher:locked-of-request-uuid",
 			"LockedUUID is asked about the same uuid that is served",
 			"LockedUUID is evaluated on a different value than the uuid passed to ServeHTTP", w.pos(lc.Pos()))
 	}
 	for _, mc := range g.isMutCalls {
-		r.check(sameValue(mc.Call.Value, recv), "dispatcher:isMut-on-served-data",
+		r.check(sameValue(gateArg(mc.Call.Value, disp), recv), "dispatcher:isMut-on-served-data",
 			"IsMutationRequest is asked of the same data instance that is served",
 			"IsMutationRequest is invoked on a different value than the instance whose ServeHTTP is called", w.pos(mc.Pos()))
 		okM := len(mc.Call.Args) == 2 && isHTTPRequestMethodLoad(mc.Call.Args[0])
@@ -295,7 +393,7 @@ func ruleR2_1(r *Run) {
 			"IsMutationRequest's endpoint argument is not the route's :keyword parameter", w.pos(mc.Pos()))
 	}
 	for _, vc := range g.versionedCalls {
-		r.check(sameValue(vc.Call.Value, recv), "dispatcher:versioned-on-served-data",
+		r.check(sameValue(gateArg(vc.Call.Value, disp), recv), "dispatcher:versioned-on-served-data",
 			"Versioned() is asked of the served instance", "Versioned() is invoked on a different value than the served instance", w.pos(vc.Pos()))
 	}
 }
